@@ -303,7 +303,7 @@ func runC16(c *Ctx) {
 	c.Min("C16.3-closing-resolved", 3)
 	// setActive after a won transition must pass chClose=true
 	for _, fn := range []*ssa.Function{tryRemove, gc} {
-		for _, in := range CallSinks(fn, CalleeFn(setActive), false) {
+		for _, in := range flattenSinks(CallSinksX(fn, CalleeFn(setActive), false)) {
 			args := in.(*ssa.Call).Call.Args
 			b, ok := BoolConst(args[len(args)-1])
 			c.Check(ok && b, "C16.3-closing-resolved", FuncName(fn)+"|setActive(true)", p.Pos(InstrPos(in)), "reverting a refused TryClose closes the wait channel (setActive(true))")
@@ -395,7 +395,7 @@ func runC16(c *Ctx) {
 	}
 	for _, r := range FieldReads(fns, valueF) {
 		fn := r.Parent()
-		top := TopFunc(fn)
+		top := effectiveOwner(p, fn) // a helper extracted from GC / TryRemove counts as that function
 		how := ""
 		switch {
 		case top == newEntry:
@@ -491,6 +491,21 @@ func requireFollowedByOrRepeat(c *Ctx, rule string, fn *ssa.Function, events []s
 	construct := FuncName(fn) + "|" + evDesc + "→" + mustDesc
 	cut := CutAtCall(must)
 	for _, ev := range events {
+		if h, inner, isExp := ExpandSink(ev); isExp {
+			// the close sequence was extracted into a new helper: resolved inside it
+			okInside := true
+			for _, iv := range inner {
+				ri := Reach(h, ReachOpts{From: iv, Cut: cut})
+				for _, x := range Returns(h) {
+					if ri.Reachable(x) {
+						okInside = false
+					}
+				}
+			}
+			if okInside {
+				continue
+			}
+		}
 		r := Reach(fn, ReachOpts{From: ev, Cut: cut})
 		sinks := append(Returns(fn), ev)
 		for _, x := range sinks {
